@@ -318,6 +318,44 @@ pub fn run(ctx: &Ctx) {
         let fuel = rng.urange(2, 12);
         check_program(rng, case, Family::Elements, fuel)
     });
+    // the human-readable encoding is one more way to build nodes (Node::from_parts): the root of a parsed
+    // text is the root of the expression written down (every node, assertions with CMR literals included)
+    ctx.run_sub("parsed-source-texts", Plan::sample(t.pick(30_000, 300_000), 0.1), |rng, case| {
+        let family = *rng.pick(&[Family::None, Family::Core, Family::Elements]);
+        let fuel = rng.urange(1, 20);
+        let (dag, typing) = match crate::c17::gen_dag(rng, family, fuel, 10) {
+            Some(x) => x,
+            None => return Outcome::Inconclusive("generator".into()),
+        };
+        let (text, features) = crate::c17::source_text(rng, &dag, &typing);
+        if features.contains(&"cmr-expression") {
+            // a case written as an assertion on `#{expr}`: still the same root (assertions keep the case's root)
+            case.count("parsed.with-cmr-expression");
+        }
+        case.desc = crate::runner::truncate(&text, 3000);
+        case.hash = Some(crate::rng::hash_str(&text));
+        let forest = match crate::c17::parse_family(&text, family) {
+            Ok(Ok(f)) => f,
+            Ok(Err(_)) => return Outcome::Inconclusive("generated text refused".into()),
+            Err(pn) => return violated("panic:parse", pn),
+        };
+        let main = match forest.roots().get("main") {
+            Some(m) => m,
+            None => return Outcome::Trivial,
+        };
+        let want = ast::cmrs(&dag);
+        if main.cmr().to_byte_array() != want[dag.root()] {
+            return violated("cmr:parsed-text", format!("the text describes an expression with root {} but parses to {} ; text:\n{}", crate::bits::fmt_bytes(&want[dag.root()]), main.cmr(), case.desc));
+        }
+        for op in &dag.nodes {
+            match op {
+                crate::ast::Op::AssertL(..) => case.count("parsed.assertl-literal"),
+                crate::ast::Op::AssertR(..) => case.count("parsed.assertr-literal"),
+                _ => {}
+            }
+        }
+        if dag.len() >= 3 { Outcome::Held } else { Outcome::Trivial }
+    });
     ctx.run_sub("words", Plan::sample(t.pick(30_000, 100_000), 0.1), check_words);
     let _ = TyParams::small();
 }
